@@ -34,9 +34,10 @@ struct Callable
         return KIND * 1000 + (counter++) * 10 + x;
     }
 };
-using Small = Callable<0, 1>;      // fits the inline buffer
-using Large = Callable<1, 64>;     // larger than the inline buffer (3 pointers)
+using Small = Callable<0, 16>;     // sizeof == 24 == the inline buffer of pika::util::detail::function (3 pointers): fits exactly
+using Large = Callable<1, 17>;     // sizeof == 28: one word beyond the inline buffer -> heap
 using Thrower = Callable<2, 1>;
+static_assert(sizeof(Small) == 3 * sizeof(void*) && sizeof(Large) > 3 * sizeof(void*) && sizeof(Large) <= 4 * sizeof(void*), "payload sizes sit on both sides of the small-buffer boundary");
 struct MoveOnly
 {
     std::unique_ptr<int> p = std::make_unique<int>(0);
